@@ -4,6 +4,9 @@ import Sigc.Lemmas.Frames
 import Sigc.Lemmas.StepConn
 import Sigc.Lemmas.StepHandles
 import Sigc.Lemmas.StepTrack
+import Sigc.Lemmas.StepSlots
+import Sigc.Lemmas.StepOwned
+import Sigc.Run
 import Sigc.Spec
 /-!
 # C14 — signal objects are shared handles; the slot list lives as long as any handle
@@ -17,7 +20,7 @@ two signal objects that both never had a list shared nothing (`signal_base::oper
 the model follows the repaired code, and `asgG_shares` now holds without that exception.
 -/
 namespace Sigc.C14
-open Sigc.Model Sigc.StepConn Sigc.StepHandles Sigc.StepTrack
+open Sigc.Model Sigc.StepConn Sigc.StepHandles Sigc.StepTrack Sigc.StepOwned
 
 /-- `ensureImpl` (`signal_base::impl()`): afterwards the handle has a list, which exists -/
 theorem ensureImpl_spec (s s' : St) (g i : Nat) (h : ensureImpl s g = some (s', i)) :
@@ -237,15 +240,19 @@ example :
     (run s4 (.sizeq 0)).map (·.2) = some "1" ∧ (run s4 (.sizeq 1)).map (·.2) = some "1" := by
   decide
 
-/-- move assignment (non-accumulated flavours, distinct objects): the destination takes the source's
-    list — also when both shared one list before (repaired F3) —, the source is left without a list -/
+/-- move assignment (non-accumulated flavours, distinct objects, not refused as `owned`, see
+    `StepHandles.masgOwned`: no functor owns the source, nor — trackable flavours — the destination): the destination takes
+    the source's list — also when both shared one list before (repaired F3) —, the source is left without a
+    list -/
 theorem masgG_transfers (s s' : St) (r : String) (j i : Nat) (d h0 : Handle)
     (hj : aget s.G j = some d) (hi : aget s.G i = some h0) (hfl : d.fl = h0.fl) (hlvl : d.lvl = h0.lvl)
-    (hacc : h0.fl.isAcc = false) (hji : j ≠ i) (h : stepSimple s (.masgG j i) = some (s', r)) :
+    (hacc : h0.fl.isAcc = false) (hji : j ≠ i) (hown : masgOwned s h0.fl j i = false)
+    (h : stepSimple s (.masgG j i) = some (s', r)) :
     r = "ok" ∧ aget s'.G j = some { d with impl := h0.impl } ∧ aget s'.G i = some { h0 with impl := none } := by
+  unfold masgOwned at hown
   simp only [stepSimple, hj, hi] at h
   rw [if_neg (by simp [hfl]), if_neg (by simp [hlvl])] at h
-  simp only [hacc, hji, if_false, Bool.false_eq_true, Option.some.injEq, Prod.mk.injEq] at h
+  simp only [hacc, hji, hown, Bool.not_false, Bool.and_false, if_false, Bool.false_eq_true, Option.some.injEq, Prod.mk.injEq] at h
   obtain ⟨rfl, rfl⟩ := h
   refine ⟨rfl, ?_, ?_⟩
   · split <;> cases d.impl <;> simp [aget_aset_other _ _ _ _ hji]
@@ -256,13 +263,44 @@ example : (stepSimple { G := [(0, { obj := 1, fl := .I, impl := some 7, trk := 2
                         impls := [(7, {})], next := 8 } (.masgG 1 0)).map
     (fun x => x.1.G.map (fun p => p.2.impl)) = some [none, some 7] := by decide
 
-/-- self-move-assignment is the identity, for every flavour -/
-theorem masgG_self (s : St) (i : Nat) (h0 : Handle) (hi : aget s.G i = some h0) :
+/-- a refused move assignment changes nothing -/
+theorem masgG_owned_refused (s : St) (j i : Nat) (d h0 : Handle)
+    (hj : aget s.G j = some d) (hi : aget s.G i = some h0) (hfl : d.fl = h0.fl) (hlvl : d.lvl = h0.lvl)
+    (hacc : h0.fl.isAcc = false) (hown : masgOwned s h0.fl j i = true) :
+    stepSimple s (.masgG j i) = some (s, "owned") := by
+  unfold masgOwned at hown
+  simp only [stepSimple, hj, hi]
+  rw [if_neg (by simp [hfl]), if_neg (by simp [hlvl])]
+  simp only [hacc, hown, Bool.not_false, Bool.and_self, if_true]
+
+example : (stepSimple { G := [(0, { obj := 1, fl := .I, impl := some 7, trk := 2, lvl := 0 }),
+                              (1, { obj := 3, fl := .I, impl := none, trk := 4, lvl := 0 })],
+                        impls := [(7, {})], ownedG := [(5, 0)], next := 8 } (.masgG 1 0)).map (·.2) = some "owned" := by
+  rw [masgG_owned_refused _ 1 0 { obj := 3, fl := .I, impl := none, trk := 4, lvl := 0 }
+    { obj := 1, fl := .I, impl := some 7, trk := 2, lvl := 0 } rfl rfl rfl rfl rfl rfl]; rfl
+
+/-- self-move-assignment is the identity, for every flavour (when it is not refused: the object is not owned by
+    a functor, or of an `accumulated` flavour) -/
+theorem masgG_self (s : St) (i : Nat) (h0 : Handle) (hi : aget s.G i = some h0)
+    (hown : (!h0.fl.isAcc && s.ownedG.any (fun p => p.2 = i)) = false) :
     stepSimple s (.masgG i i) = some (s, "ok") := by
   simp only [stepSimple, hi]
-  cases h0.fl.isAcc <;> simp
+  cases hacc : h0.fl.isAcc
+  · simp only [hacc, Bool.not_false, Bool.true_and] at hown
+    simp [hown]
+  · simp
 
-example : stepSimple exStT (.masgG 0 0) = some (exStT, "ok") := masgG_self exStT 0 _ rfl
+/-- … and refused or not, it leaves the state alone -/
+theorem masgG_self_state (s : St) (i : Nat) (h0 : Handle) (hi : aget s.G i = some h0) :
+    ∃ r, stepSimple s (.masgG i i) = some (s, r) ∧ (r = "ok" ∨ r = "owned") := by
+  simp only [stepSimple, hi]
+  cases hacc : h0.fl.isAcc
+  · cases hown : s.ownedG.any (fun p => p.2 = i)
+    · exact ⟨"ok", by simp, .inl rfl⟩
+    · exact ⟨"owned", by simp, .inr rfl⟩
+  · exact ⟨"ok", by simp, .inl rfl⟩
+
+example : stepSimple exStT (.masgG 0 0) = some (exStT, "ok") := masgG_self exStT 0 _ rfl rfl
 
 /-- self-copy-assignment is the identity -/
 theorem asgG_self (s : St) (i : Nat) (h0 : Handle) (hi : aget s.G i = some h0) :
@@ -364,25 +402,50 @@ example :
 /-- destroying a signal object: `~trackable` first (trackable flavours: the forwarders made from this
     object are invalidated), then the handle goes, then the list is torn down iff this was the last owner -/
 theorem delG_eq (s : St) (g : Nat) (h0 : Handle) (hg : aget s.G g = some h0)
-    (hpin : (h0.everFwd && !h0.fl.isTrackable) = false) :
+    (hpin : (h0.everFwd && !h0.fl.isTrackable) = false) (hown : s.ownedG.any (fun p => p.2 = g) = false) :
     stepSimple s (.delG g) = some (
       (let s1 := if h0.fl.isTrackable then invalidateTrackable s h0.trk else s
        let s2 := { s1 with G := adel s1.G g }
        match h0.impl with | some im => gcImpl s2 im | none => s2), "ok") := by
-  cases himpl : h0.impl <;> simp [stepSimple, hg, hpin, himpl]
+  cases himpl : h0.impl <;> simp [stepSimple, hg, hpin, hown, himpl]
 
 example : (stepSimple exStT (.delG 1)).map (·.2) = some "ok" := by
-  rw [delG_eq exStT 1 _ rfl rfl]; rfl
+  rw [delG_eq exStT 1 _ rfl rfl rfl]; rfl
 
-/-- destroying the last signal object of a list (plain flavour, no emission running) tears the list
-    down: it is gone, and every connection into it reports disconnected -/
+/-- … which is `dropHandle` (what `collect` runs when the last functor copy owning the object is gone) -/
+theorem delG_eq_dropHandle (s : St) (g : Nat) (h0 : Handle) (hg : aget s.G g = some h0)
+    (hpin : (h0.everFwd && !h0.fl.isTrackable) = false) (hown : s.ownedG.any (fun p => p.2 = g) = false) :
+    stepSimple s (.delG g) = some (dropHandle s g, "ok") := by
+  rw [delG_eq s g h0 hg hpin hown]
+  simp only [dropHandle, hg]
+  rfl
+
+example : stepSimple exStT (.delG 1) = some (dropHandle exStT 1, "ok") := delG_eq_dropHandle exStT 1 _ rfl rfl rfl
+
+/-- a signal object that a functor owns (`ownG`) cannot be destroyed through its name: `delG` is refused and
+    changes nothing -/
+theorem delG_owned_refused (s : St) (g : Nat) (h0 : Handle) (hg : aget s.G g = some h0)
+    (hown : s.ownedG.any (fun p => p.2 = g) = true) :
+    ∃ r, stepSimple s (.delG g) = some (s, r) ∧ (r = "pinned" ∨ r = "owned") := by
+  simp only [stepSimple, hg, hown, if_true]
+  cases (h0.everFwd && !h0.fl.isTrackable)
+  · exact ⟨"owned", by simp, .inr rfl⟩
+  · exact ⟨"pinned", by simp, .inl rfl⟩
+
+example : (stepSimple { G := [(4, { obj := 9, fl := .I, impl := none, trk := 0, lvl := 0 })], ownedG := [(7, 4)] } (.delG 4)).map (·.2)
+    = some "owned" := rfl
+
+/-- destroying the last signal object of a list (plain flavour, no emission running; not refused: never
+    forwarded to, not owned by a functor) tears the list down: it is gone, and every connection into it reports
+    disconnected -/
 theorem delG_last_owner (s s' : St) (r : String) (g i : Nat) (h0 : Handle) (im : Impl)
     (hg : aget s.G g = some h0) (hpin : h0.everFwd = false) (htr : h0.fl.isTrackable = false) (himpl : h0.impl = some i)
     (hi : aget s.impls i = some im) (hh : im.holders = 0) (hlast : refersTo (adel s.G g) i = false)
+    (hown : s.ownedG.any (fun p => p.2 = g) = false)
     (h : stepSimple s (.delG g) = some (s', r)) :
     r = "ok" ∧ aget s'.impls i = none ∧ aget s'.G g = none ∧
     (∀ c, aget s'.C c = (aget s.C c).map (nullFL (im.cells.map (·.id)))) ∧ s'.S = s.S := by
-  rw [delG_eq s g h0 hg (by simp [hpin])] at h
+  rw [delG_eq s g h0 hg (by simp [hpin]) hown] at h
   simp only [htr, himpl] at h
   simp at h
   obtain ⟨rfl, rfl⟩ := h
@@ -393,9 +456,10 @@ theorem delG_last_owner (s s' : St) (r : String) (g i : Nat) (h0 : Handle) (im :
 theorem delG_not_last_owner (s s' : St) (r : String) (g g2 i : Nat) (h0 h2 : Handle)
     (hg : aget s.G g = some h0) (hpin : h0.everFwd = false) (htr : h0.fl.isTrackable = false) (himpl : h0.impl = some i)
     (hg2 : aget s.G g2 = some h2) (hne : g2 ≠ g) (himpl2 : h2.impl = some i)
+    (hown : s.ownedG.any (fun p => p.2 = g) = false)
     (h : stepSimple s (.delG g) = some (s', r)) :
     r = "ok" ∧ s'.impls = s.impls ∧ s'.C = s.C ∧ s'.K = s.K ∧ s'.S = s.S ∧ aget s'.G g = none ∧ aget s'.G g2 = some h2 := by
-  rw [delG_eq s g h0 hg (by simp [hpin])] at h
+  rw [delG_eq s g h0 hg (by simp [hpin]) hown] at h
   simp only [htr, himpl] at h
   simp at h
   obtain ⟨rfl, rfl⟩ := h
@@ -428,12 +492,13 @@ example :
 `invVar t` is what `notify_callbacks()` of trackable `t` does to a slot variable (invalidate it iff its
 functor refers to `t`); the effect on list cells is `C18.*_dies_with_object`. -/
 
-/-- destroying a trackable_signal notifies its trackable base: every slot variable holding a forwarder
-    made from it is invalidated, no other slot variable changes -/
+/-- destroying a trackable_signal (not refused: not owned by a functor) notifies its trackable base: every slot
+    variable holding a forwarder made from it is invalidated, no other slot variable changes -/
 theorem delG_notifies (s s' : St) (r : String) (g : Nat) (h0 : Handle)
-    (hg : aget s.G g = some h0) (ht : h0.fl.isTrackable = true) (h : stepSimple s (.delG g) = some (s', r)) :
+    (hg : aget s.G g = some h0) (ht : h0.fl.isTrackable = true) (hown : s.ownedG.any (fun p => p.2 = g) = false)
+    (h : stepSimple s (.delG g) = some (s', r)) :
     s'.S = amap s.S (invVar h0.trk) := by
-  rw [delG_eq s g h0 hg (by simp [ht])] at h
+  rw [delG_eq s g h0 hg (by simp [ht]) hown] at h
   simp only [ht, if_true, Option.some.injEq, Prod.mk.injEq] at h
   obtain ⟨rfl, _⟩ := h
   cases h0.impl <;> simp [gcImpl_S, invalidateTrackable_S]
@@ -445,8 +510,10 @@ theorem delG_plain_notifies_nobody (s s' : St) (r : String) (g : Nat) (h0 : Hand
   simp only [stepSimple, hg, ht] at h
   split at h
   · simp at h; obtain ⟨rfl, _⟩ := h; rfl
-  · simp at h; obtain ⟨rfl, _⟩ := h
-    cases h0.impl <;> simp [gcImpl_S]
+  · split at h
+    · simp at h; obtain ⟨rfl, _⟩ := h; rfl
+    · simp at h; obtain ⟨rfl, _⟩ := h
+      cases h0.impl <;> simp [gcImpl_S]
 
 /-- move construction from a trackable_signal (not `accumulated`) notifies the source's trackable base -/
 theorem mvG_notifies (s s' : St) (r : String) (j i : Nat) (h0 : Handle)
@@ -482,16 +549,19 @@ theorem mvG_notifies_nobody (s s' : St) (r : String) (j i : Nat) (h0 : Handle)
       obtain ⟨rfl, _⟩ := h
       rfl
 
-/-- move assignment from a trackable_signal that has a list (not `accumulated`, not self) notifies the
-    source's trackable base -/
+/-- move assignment from a trackable_signal that has a list (not `accumulated`, not self, not refused as
+    `owned`) notifies the source's trackable base -/
 theorem masgG_notifies (s s' : St) (r : String) (j i : Nat) (d h0 : Handle)
     (hj : aget s.G j = some d) (hi : aget s.G i = some h0) (hfl : d.fl = h0.fl) (hlvl : d.lvl = h0.lvl) (hji : j ≠ i)
     (ht : h0.fl.isTrackable = true) (hacc : h0.fl.isAcc = false) (hsome : h0.impl.isSome = true)
+    (hown : masgOwned s h0.fl j i = false)
     (h : stepSimple s (.masgG j i) = some (s', r)) :
     s'.S = amap s.S (invVar h0.trk) := by
+  unfold masgOwned at hown
   simp only [stepSimple, hj, hi] at h
   rw [if_neg (by simp [hfl]), if_neg (by simp [hlvl])] at h
-  simp only [hacc, hji, if_false, Bool.false_eq_true, ht, hsome, Bool.and_self, if_true, Option.some.injEq, Prod.mk.injEq] at h
+  simp only [hacc, hown, Bool.not_false, Bool.and_false] at h
+  simp only [hji, if_false, Bool.false_eq_true, ht, hsome, Bool.and_self, if_true, Option.some.injEq, Prod.mk.injEq] at h
   obtain ⟨rfl, _⟩ := h
   rw [invalidateTrackable_S]
   cases d.impl <;> simp [gcImpl_S]
@@ -512,28 +582,30 @@ theorem masgG_notifies_nobody (s s' : St) (r : String) (j i : Nat) (h0 : Handle)
     · simp at h; obtain ⟨rfl, _⟩ := h; rfl
     · split at h
       · simp at h; obtain ⟨rfl, _⟩ := h; rfl
-      · by_cases hacc : h0.fl.isAcc = true
-        · simp only [hacc, if_true] at h
-          split at h
-          · simp at h; obtain ⟨rfl, _⟩ := h; rfl
-          · obtain ⟨s1, im, he, _, _, hS1, _⟩ := ensureImpl_cases s i h0 hi
-            simp only [he] at h
+      · split at h
+        · simp at h; obtain ⟨rfl, _⟩ := h; rfl
+        · by_cases hacc : h0.fl.isAcc = true
+          · simp only [hacc, if_true] at h
             split at h
-            · simp at h; obtain ⟨rfl, _⟩ := h; exact hS1
-            · simp at h; obtain ⟨rfl, _⟩ := h
-              cases d.impl <;> simp [gcImpl_S, hS1]
-        · simp only [hacc] at h
-          by_cases hji : j = i
-          · simp [hji] at h; obtain ⟨rfl, _⟩ := h; rfl
-          · have hcond : (h0.fl.isTrackable && h0.impl.isSome) = false := by
-              rcases hno with h1 | h1 | h1 | h1
-              · simp [h1]
-              · exact absurd h1 hacc
-              · simp [h1]
-              · exact absurd h1 hji
-            simp only [hji, if_false, Bool.false_eq_true, hcond, Option.some.injEq, Prod.mk.injEq] at h
-            obtain ⟨rfl, _⟩ := h
-            cases d.impl <;> simp [gcImpl_S]
+            · simp at h; obtain ⟨rfl, _⟩ := h; rfl
+            · obtain ⟨s1, im, he, _, _, hS1, _⟩ := ensureImpl_cases s i h0 hi
+              simp only [he] at h
+              split at h
+              · simp at h; obtain ⟨rfl, _⟩ := h; exact hS1
+              · simp at h; obtain ⟨rfl, _⟩ := h
+                cases d.impl <;> simp [gcImpl_S, hS1]
+          · simp only [hacc] at h
+            by_cases hji : j = i
+            · simp [hji] at h; obtain ⟨rfl, _⟩ := h; rfl
+            · have hcond : (h0.fl.isTrackable && h0.impl.isSome) = false := by
+                rcases hno with h1 | h1 | h1 | h1
+                · simp [h1]
+                · exact absurd h1 hacc
+                · simp [h1]
+                · exact absurd h1 hji
+              simp only [hji, if_false, Bool.false_eq_true, hcond, Option.some.injEq, Prod.mk.injEq] at h
+              obtain ⟨rfl, _⟩ := h
+              cases d.impl <;> simp [gcImpl_S]
 
 /-- copy construction and copy assignment never notify: the copy gets its own trackable base and the
     source keeps its registrations -/
@@ -588,6 +660,207 @@ example :
     (stepSimple exStT (.masgG 0 0)).map (fun x => x.1.S.map (fun p => p.2.slot.empty)) = some [false] := by
   decide
 
+/-! ## signal objects owned by functors (`ownG`): the owner keeps the object, hence its list, alive -/
+
+/-- `delG` either leaves the state alone (`dead`, `pinned`, `owned`) or is `dropHandle` -/
+theorem delG_cases (s : St) (g : Nat) :
+    (∃ r, stepSimple s (.delG g) = some (s, r) ∧ r ≠ "ok") ∨ stepSimple s (.delG g) = some (dropHandle s g, "ok") := by
+  cases hg : aget s.G g with
+  | none => exact Or.inl ⟨"dead", by simp only [stepSimple, hg], by decide⟩
+  | some h0 =>
+    cases hpin : (h0.everFwd && !h0.fl.isTrackable) with
+    | true => exact Or.inl ⟨"pinned", by simp only [stepSimple, hg, hpin, if_true], by decide⟩
+    | false =>
+      cases hown : s.ownedG.any (fun p => p.2 = g) with
+      | true => exact Or.inl ⟨"owned", by simp only [stepSimple, hg, hpin, hown, if_true, Bool.false_eq_true, if_false], by decide⟩
+      | false => exact Or.inr (delG_eq_dropHandle s g h0 hg hpin hown)
+
+/-- connecting a functor that owns the signal object named `g0` (`connfn k g (ownG fid g0)`, answer `ok`): `g0` was
+    named and owned by no functor; afterwards it has exactly one new entry in `ownedG`, under a fresh owner id, and
+    its name is still in `G` (so `delG g0` is refused from now on: `delG_owned_refused`) -/
+theorem connfn_ownG_registers (s s' : St) (k g fid g0 : Nat) (first : Bool)
+    (h : stepSimple s (.connfn k g (.ownG fid g0) first) = some (s', "ok")) :
+    (aget s.G g0).isSome = true ∧ s.ownedG.any (fun p => p.2 = g0) = false ∧
+    s'.ownedG = (s.next, g0) :: s.ownedG ∧ (aget s'.G g0).isSome = true := by
+  simp only [stepSimple] at h
+  cases hg : aget s.G g with
+  | none => simp [hg] at h
+  | some hd =>
+    simp only [hg] at h
+    cases hm : mkFun s hd.fl.isVoid (.ownG fid g0) with
+    | error e =>
+      simp only [hm, Option.some.injEq, Prod.mk.injEq] at h
+      exact absurd h.2 (mkFun_error_ne_ok _ _ _ _ hm)
+    | ok pr =>
+      obtain ⟨fn, s0⟩ := pr
+      obtain ⟨hs0, _, hsome, hno⟩ := (Sigc.StepSlots.mkFun_ok_ownG s s0 _ _ fn hm).2 fid g0 rfl
+      subst hs0
+      have hl : ¬ ((-1 : Int) ≥ (hd.lvl : Int)) := by omega
+      simp only [hm, specTaint, hl, if_false] at h
+      obtain ⟨s1, im, he, hg1, hoth, _, _, _, _, _, hcase⟩ :=
+        ensureImpl_cases { s with ownedG := (s.next, g0) :: s.ownedG, next := s.next + 1 } g hd hg
+      simp only [he, Option.some.injEq, Prod.mk.injEq] at h
+      obtain ⟨rfl, _⟩ := h
+      refine ⟨hsome, hno, ?_, ?_⟩
+      · show (insertCell s1 im first _).1.ownedG = _
+        rw [insertCell_ownedG]
+        rcases hcase with ⟨_, rfl⟩ | ⟨_, _, rfl⟩ <;> rfl
+      · show (aget (insertCell s1 im first _).1.G g0).isSome = true
+        rw [insertCell_G]
+        by_cases e : g0 = g
+        · subst e; rw [hg1]; rfl
+        · rw [hoth g0 e]; exact hsome
+
+/-- **a signal object that a functor owns keeps its slot list alive**: whatever handle `g2` is destroyed (`delG g2`;
+    for the owned name itself that is refused), the owned name stays in `G` with the same list, stays owned, and the
+    list it refers to stays — `gcImpl` never removes a list that a handle in `G` refers to (`lives_while_owned`), and
+    a functor-owned handle stays in `G` (named or not by the program, it is a handle of the list) -/
+theorem functor_owned_handle_keeps_list (s s' : St) (r : String) (g0 g2 im : Nat) (h0 : Handle)
+    (hown : s.ownedG.any (fun p => p.2 = g0) = true) (hg0 : aget s.G g0 = some h0) (himpl : h0.impl = some im)
+    (h : stepSimple s (.delG g2) = some (s', r)) :
+    aget s'.G g0 = some h0 ∧ s'.ownedG = s.ownedG ∧ (aget s'.impls im).isSome = (aget s.impls im).isSome ∧
+    (g2 = g0 → s' = s ∧ r ≠ "ok") := by
+  rcases delG_cases s g2 with ⟨r', hr, hne⟩ | hr
+  · rw [hr] at h
+    simp only [Option.some.injEq, Prod.mk.injEq] at h
+    obtain ⟨rfl, rfl⟩ := h
+    exact ⟨hg0, rfl, rfl, fun _ => ⟨rfl, hne⟩⟩
+  · have e : g0 ≠ g2 := by
+      intro e
+      subst e
+      obtain ⟨r', hr', hne⟩ := delG_owned_refused s g0 h0 hg0 hown
+      rw [hr] at hr'
+      simp only [Option.some.injEq, Prod.mk.injEq] at hr'
+      rcases hne with hne | hne <;> rw [hne] at hr' <;> exact absurd hr'.2 (by decide)
+    rw [hr] at h
+    simp only [Option.some.injEq, Prod.mk.injEq] at h
+    obtain ⟨rfl, rfl⟩ := h
+    refine ⟨?_, (dropHandle_own s g2).g, dropHandle_keeps_referred s g2 g0 im h0 e hg0 himpl, fun e' => absurd e'.symm e⟩
+    rw [dropHandle_G, if_neg e]
+    exact hg0
+
+/-- the cycle the mechanism exists for — a signal whose own list holds a functor owning the signal:
+    `newG 0 I; cpG 1 0; connfn 0 0 (ownG 9 0)`; the copy `1` can be destroyed, the owned name `0` cannot, and the
+    list (one cell) is still there -/
+example :
+    let run := fun (s : Option (St × String)) (op : Op) => s.bind (fun x => stepSimple x.1 op)
+    let s3 := [Op.newG 0 (some .I), .cpG 1 0, .connfn 0 0 (.ownG 9 0) false].foldl run (some ({}, ""))
+    let s4 := run s3 (.delG 1)
+    s3.map (fun x => x.1.ownedG) = some [(6, 0)] ∧ s4.map (·.2) = some "ok" ∧
+    (run s4 (.delG 0)).map (·.2) = some "owned" ∧ (run (run s4 (.delG 0)) (.sizeq 0)).map (·.2) = some "1" ∧
+    s4.map (fun x => heldK x.1 6) = some true := by
+  decide
+
+example : ∀ s' r, stepSimple { G := [(0, { obj := 1, fl := .I, impl := some 7, trk := 2, lvl := 0 }),
+                                     (1, { obj := 3, fl := .I, impl := some 7, trk := 4, lvl := 0 })],
+                               impls := [(7, {})], ownedG := [(5, 0)], next := 8 } (.delG 1) = some (s', r) →
+    (aget s'.impls 7).isSome = true := fun s' r h =>
+  (functor_owned_handle_keeps_list _ s' r 0 1 7 { obj := 1, fl := .I, impl := some 7, trk := 2, lvl := 0 } rfl rfl rfl h).2.2.1
+
+/-- what the third branch of `collectStep` does, precisely: when no owned trackable and no owned scoped connection is
+    unheld, the first functor-owned signal object whose owner id no functor copy holds any more is taken out of
+    `ownedG` and destroyed exactly as `delG` would destroy it (`dropHandle`, cf. `delG_eq_dropHandle`): its name
+    is gone, the other `ownedG` entries stay -/
+theorem collectStep_drops_unheld_owned_handle (s : St) (k g : Nat)
+    (hT : s.ownedT.find? (fun o => !heldT s o) = none)
+    (hK : s.ownedK.find? (fun q => !heldK s q.1) = none)
+    (hG : s.ownedG.find? (fun q => !heldK s q.1) = some (k, g)) :
+    collectStep s = some (dropHandle { s with ownedG := s.ownedG.filter (fun q => q.1 ≠ k) } g) ∧
+    aget (dropHandle { s with ownedG := s.ownedG.filter (fun q => q.1 ≠ k) } g).G g = none ∧
+    (dropHandle { s with ownedG := s.ownedG.filter (fun q => q.1 ≠ k) } g).ownedG
+      = s.ownedG.filter (fun q => q.1 ≠ k) ∧
+    (k, g) ∈ s.ownedG ∧ heldK s k = false := by
+  refine ⟨collectStep_ownedG s k g hT hK hG, ?_, (dropHandle_own _ g).g, List.mem_of_find?_eq_some hG, ?_⟩
+  · rw [dropHandle_G]; simp
+  · have := List.find?_some hG
+    simpa using this
+
+/-- **`collect` destroys every functor-owned signal object that no functor copy holds any more**: if `(k, g)` is in
+    `ownedG` (`k` being the owner id of no other entry — owner ids come from the allocator) and no slot variable and no
+    list cell holds a functor copy with owner id `k`, then after `collect` the name `g` is no longer in `G` and the
+    entry is gone; and whatever is still in `ownedG` after `collect` was there before and is held by a functor copy -/
+theorem collect_drops_unheld_owned_handle (s : St) (k g : Nat) (hm : (k, g) ∈ s.ownedG)
+    (hu : ∀ g', (k, g') ∈ s.ownedG → g' = g) (hk : heldK s k = false) :
+    aget (collect s).G g = none ∧ (k, g) ∉ (collect s).ownedG ∧
+    ∀ p ∈ (collect s).ownedG, p ∈ s.ownedG ∧ heldK (collect s) p.1 = true :=
+  ⟨(collect_drops_unheld s k g hm hu hk).1, (collect_drops_unheld s k g hm hu hk).2,
+   fun p hp => ⟨(collect_rel s).sub p hp, collect_ownedG_held s p hp⟩⟩
+
+/-- a list cell held a functor owning signal object `4` (owner id 7); the cell is gone (the state below has no
+    list): `collect` destroys the object — and while a slot variable still holds a copy of the functor, it does not -/
+example :
+    let s : St := { G := [(4, { obj := 9, fl := .I, impl := none, trk := 0, lvl := 0 }),
+                          (5, { obj := 10, fl := .I, impl := none, trk := 0, lvl := 0 })], ownedG := [(7, 4)], next := 11 }
+    aget (collect s).G 4 = none ∧ (aget (collect s).G 5).isSome = true ∧ (collect s).ownedG = [] :=
+  ⟨(collect_drops_unheld_owned_handle _ 7 4 (by simp) (by simp) (by decide)).1, by decide, by decide⟩
+
+example :
+    let s : St := { G := [(4, { obj := 9, fl := .I, impl := none, trk := 0, lvl := 0 })], ownedG := [(7, 4)], next := 11,
+                    S := [(0, { isVoid := false, slot := { rep := some { call := true, fn := some (.owner 3 [] [7]) } } })] }
+    (aget (collect s).G 4).isSome = true ∧ (collect s).ownedG = [(7, 4)] := by
+  decide
+
+/-- the uniqueness hypothesis of `collect_drops_unheld_owned_handle` holds in every well-formed state
+    (`StepWF.WF`: every state in which any operation of any run executes — `execOp_WF`, `runTop_WF`), e.g. in the
+    state an operation leaves behind before `collect` runs -/
+theorem collect_drops_unheld_owned_handle_wf (s : St) (hw : Sigc.StepWF.WF s) (k g : Nat) (hm : (k, g) ∈ s.ownedG)
+    (hk : heldK s k = false) :
+    aget (collect s).G g = none ∧ (k, g) ∉ (collect s).ownedG :=
+  let ⟨a, b, _⟩ := collect_drops_unheld_owned_handle s k g hm (fun _ h' => hw.owners.unique hm h') hk
+  ⟨a, b⟩
+
+example : Sigc.StepWF.WF { G := [(4, { obj := 9, fl := .I, impl := none, trk := 0, lvl := 0 })], ownedG := [(7, 4)], next := 11 } := by
+  decide
+
+/-- **after every line of every program, every functor-owned signal object is held by a live functor copy** (in a
+    slot variable or a list cell): `execLine` ends with `collect`, which has destroyed the others
+    (`collect_drops_unheld_owned_handle`) -/
+theorem line_leaves_owned_handles_held (f : Nat) (P : Prog) (s : St) (l : Line) (r : St × Outcome)
+    (h : execLine f P s l = some r) : ∀ p ∈ r.1.ownedG, heldK r.1 p.1 = true := by
+  cases f with
+  | zero => rw [execLine] at h; cases h
+  | succ f =>
+    rw [execLine] at h
+    split at h
+    · cases h
+    · simp only [Option.some.injEq] at h; subst h
+      exact fun p hp => collect_ownedG_held _ p hp
+    · simp only [Option.some.injEq] at h; subst h
+      exact fun p hp => collect_ownedG_held _ p hp
+
+/-- … hence in every state reached by running any lines of any program from the initial state -/
+theorem run_leaves_owned_handles_held (f : Nat) (P : Prog) (ls : List Line) (s : St)
+    (h : runTop f P {} ls = some s) : ∀ p ∈ s.ownedG, heldK s p.1 = true := by
+  have key : ∀ (ls : List Line) (s0 s : St), (∀ p ∈ s0.ownedG, heldK s0 p.1 = true) → runTop f P s0 ls = some s →
+      ∀ p ∈ s.ownedG, heldK s p.1 = true := by
+    intro ls
+    induction ls with
+    | nil => intro s0 s h0 h; rw [runTop] at h; cases h; exact h0
+    | cons l t ih =>
+      intro s0 s _ h
+      rw [runTop] at h
+      split at h
+      · cases h
+      · rename_i s1 o he
+        exact ih s1 s (line_leaves_owned_handles_held f P s0 l (s1, o) he) h
+  exact key ls {} s (fun _ hp => by cases hp) h
+
+/-- a run: the functor owning signal `0` is connected to signal `1`; destroying signal `1` destroys the functor, and
+    with it the owned signal object `0` (its name is gone: `sizeq 0 → dead`) -/
+def exProgOwn : Prog :=
+  { bodies := [], owners := true,
+    top := [⟨"newG 0 I", .newG 0 (some .I)⟩, ⟨"newG 1 I", .newG 1 (some .I)⟩,
+            ⟨"connfn 0 1 ownG 9 0", .connfn 0 1 (.ownG 9 0) false⟩, ⟨"delG 0", .delG 0⟩, ⟨"sizeq 0", .sizeq 0⟩,
+            ⟨"delG 1", .delG 1⟩, ⟨"sizeq 0", .sizeq 0⟩] }
+
+example : (runTop 20 exProgOwn {} exProgOwn.top).map (fun s => (s.G.map (·.1), s.ownedG,
+      (s.trace.reverse.filterMap (fun e => match e with | .res _ t r => some (t, r) | _ => none)).drop 3)) =
+    some ([], [], [("delG 0", "owned"), ("sizeq 0", "0"), ("delG 1", "ok"), ("sizeq 0", "dead")]) := by
+  decide +kernel
+
+example : ∀ f s, runTop f exProgOwn {} exProgOwn.top = some s → ∀ p ∈ s.ownedG, heldK s p.1 = true :=
+  fun f s h => run_leaves_owned_handles_held f _ _ s h
+
 /-! ## the specification `S` -/
 
 /-- in `S`, too, two handles of one list are indistinguishable for queries, `block` and `clear` -/
@@ -600,13 +873,26 @@ theorem spec_shared_handles_agree_queries (s : Spec.LSt) (g1 g2 : Nat) (h1 h2 : 
     Spec.stepSimple s (.clear g1) = Spec.stepSimple s (.clear g2) := by
   refine ⟨?_, ?_, ?_, ?_, ?_⟩ <;> simp [Spec.stepSimple, hg1, hg2, himpl]
 
-/-- in `S`, self-assignment (copy or move) of a signal object is the identity -/
+/-- in `S`, self-assignment (copy or move) of a signal object is the identity (the move unless refused: the
+    object is owned by a functor and not of an `accumulated` flavour; the state is unchanged then, too) -/
 theorem spec_self_assign (s : Spec.LSt) (i : Nat) (h0 : Handle) (hi : aget s.G i = some h0) :
-    Spec.stepSimple s (.asgG i i) = some (s, "ok") ∧ Spec.stepSimple s (.masgG i i) = some (s, "ok") := by
-  constructor
+    Spec.stepSimple s (.asgG i i) = some (s, "ok") ∧
+    ((!h0.fl.isAcc && s.ownedG.any (fun p => p.2 = i)) = false → Spec.stepSimple s (.masgG i i) = some (s, "ok")) ∧
+    ∃ r, Spec.stepSimple s (.masgG i i) = some (s, r) := by
+  refine ⟨?_, ?_, ?_⟩
   · simp [Spec.stepSimple, hi]
+  · intro hown
+    simp only [Spec.stepSimple, hi]
+    cases hacc : h0.fl.isAcc
+    · simp only [hacc, Bool.not_false, Bool.true_and] at hown
+      simp [hown]
+    · simp
   · simp only [Spec.stepSimple, hi]
-    cases h0.fl.isAcc <;> simp
+    cases hacc : h0.fl.isAcc
+    · cases hown : s.ownedG.any (fun p => p.2 = i)
+      · exact ⟨"ok", by simp⟩
+      · exact ⟨"owned", by simp⟩
+    · exact ⟨"ok", by simp⟩
 
 /-- in `S`, move construction of a plain signal transfers the list and leaves the source without one -/
 theorem spec_mvG_transfers (s s' : Spec.LSt) (r : String) (j i : Nat) (h0 : Handle)
